@@ -597,7 +597,9 @@ class Edit(Text):
         """
         self._shift_view_to_cursor = bool(focus)
 
-        canv: TextCanvas | CompositeCanvas = super().render(size, focus)
+        # not through the Text-level canvas cache: its key ignores focus, but the
+        # line translation of an Edit depends on it (the view is shifted to the cursor)
+        canv: TextCanvas | CompositeCanvas = Text.render.original_fn(self, size, focus)
         if focus:
             canv = CompositeCanvas(canv)
             canv.cursor = self.get_cursor_coords(size)
